@@ -38,7 +38,8 @@ PROPS = {
    oracle_for_stage=LEX_ORACLE_STAGES,
    corpus=["lex.txt"], tables=["Gen/Tables.v: kind, keywords"]),
  "C01": dict(
-   corr=[("expr", "compile", 4000, 40000), ("prog", "compile", 2000, 20000), ("prog-params", "compile", 2000, 20000), ("lets", "compile", 1500, 15000)],
+   corr=[("expr", "compile", 4000, 40000), ("prog", "compile", 2000, 20000), ("prog-params", "compile", 2000, 20000), ("lets", "compile", 1500, 15000),
+         ("signs", "compile", 0, 0), ("joinconds", "compile", 0, 0), ("joins", "compile", 1000, 10000)],
    oracle=[("expr", "oracle-C12", 1500, 15000)],
    corpus=["compile.txt"], tables=["Gen/Tables.v: op_prec, binop_sql, known_funcs, writer_arity, writer_template, builtin_idents"]),
  "C02": dict(
@@ -51,7 +52,7 @@ PROPS = {
    oracle=[("prog-mut", "oracle-C13", 1500, 15000)],
    corpus=["compile.txt"], tables=["Gen/Tables.v: op_prec, binop_sql, join_types"]),
  "C06": dict(
-   corr=[("lets", "compile", 4000, 40000), ("prog-params", "compile", 3000, 30000)],
+   corr=[("lets", "compile", 4000, 40000), ("prog-params", "compile", 3000, 30000), ("signs", "compile", 0, 0), ("joinconds", "compile", 0, 0)],
    oracle=[("lets", "oracle-C13", 2000, 20000), ("lets", "oracle-C14", 500, 5000)],
    corpus=["compile.txt"], tables=["Gen/Tables.v: builtin_idents"]),
  "C07": dict(
@@ -99,4 +100,8 @@ PROPS = {
    corpus=["cli.txt"], tables=[],
    assumptions=["OS-level I/O (partial writes, signals, terminal detection, file-system errors other than a missing file) is outside the model",
                 "bufio.Scanner's line splitting and 64 KiB limit are modelled in events_of (coq/Model/Show.v) and tied by correspondence"]),
+ "C04": dict(
+   corr=[("prog-hostile", "compile", 6000, 60000), ("prog-hostile", "scan", 2000, 20000), ("lit", "scan", 2000, 20000), ("prog-hostile", "parse", 2000, 20000)],
+   oracle=[("prog-hostile", "oracle-C09", 2000, 20000)],
+   corpus=["compile.txt"], tables=[]),
 }
